@@ -81,8 +81,9 @@ def _vals(d):
 
 
 def spec_entries(spec):
-    """data entries that can carry a sigma: list of (kind, dict, scale, effective).  'effective' = the perturbation is visible in
-    the stored values of the parameter itself (no function, no limits, non-zero calibration factor)"""
+    """data entries that can carry a sigma: list of (kind, dict, scale, effective).  'effective' = the perturbation is visible
+    one-to-one in the stored values of the parameter itself (data parameter with no function, no limits, no program overwrite,
+    non-zero calibration factor), so two different draws can never give the same result arrays"""
     pars = {p["name"]: p for p in spec["pars"]}
     comps = {c["name"] for c in spec["comps"]}
     data = spec["data"]
@@ -100,7 +101,7 @@ def spec_entries(spec):
                 if p.get("timed"):
                     continue
                 f = (yf.get(q) or {}).get(pop, 1.0) * myf.get(q, 1.0)
-                eff = p.get("fn") is None and p.get("min") is None and p.get("max") is None and f != 0 and min(abs(x) for x in v) > 0
+                eff = p.get("fn") is None and p.get("min") is None and p.get("max") is None and not p.get("tgt") and not p.get("deriv") and f != 0 and min(abs(x) for x in v) > 0
                 out.append(("par", d, scale, eff))
             elif q in comps and min(v) > 0:
                 out.append(("comp", d, scale, False))
@@ -191,8 +192,9 @@ def assign_sigmas(draw, spec, unc):
 
 
 def spec_unc(spec):
-    """uncertainty actually present in a spec: (parset_positive, progset_positive, any_zero)"""
+    """uncertainty actually present in a spec: (parset_positive, progset_positive, any_zero, positive on an effective parset entry)"""
     ppos = pz = gpos = False
+    eff_par = any(eff and (d.get("s") or 0) > 0 for _, d, _, eff in spec_entries(spec))
     data = spec["data"]
     ds = [d for bypop in data["q"].values() for d in bypop.values()] + [e for tr in data.get("tr") or [] for e in tr["e"].values()]
     for d in ds:
@@ -218,7 +220,7 @@ def spec_unc(spec):
                     gpos = True
                 else:
                     pz = True
-    return ppos, gpos, pz
+    return ppos, gpos, pz, eff_par
 
 
 # --------------------------------------------------------------------------- library sources
@@ -254,13 +256,14 @@ def materialise(src):
             raise
         except Exception as e:
             raise Discard("atomica raised %s while building the generated model (decided by C18)" % type(e).__name__)
-        ppos, gpos, zero = spec_unc(spec)
+        ppos, gpos, zero, eff_par = spec_unc(spec)
         explicit = bool(spec.get("progs")) and any(c.get("imp") for c in spec["progs"]["covouts"])
         explicit_sigma = bool(spec.get("progs")) and any(c.get("imp") and c.get("sigma", 0.0) is not None for c in spec["progs"]["covouts"])
-        return {"P": b["P"], "ps": b["ps"], "pg": b["progset"], "ins": b["instructions"], "ppos": ppos, "gpos": gpos, "zero": zero, "explicit": explicit, "explicit_sigma": explicit_sigma}
+        return {"P": b["P"], "ps": b["ps"], "pg": b["progset"], "ins": b["instructions"], "ppos": ppos, "gpos": gpos, "zero": zero, "explicit": explicit, "explicit_sigma": explicit_sigma, "eff_par": eff_par}
     P = _lib(src["name"])
     ps = P.parsets[0]
-    ppos = gpos = zero = explicit = explicit_sigma = False
+    ppos = gpos = zero = explicit = explicit_sigma = eff_par = False
+    targeted = set(c.par for c in P.progsets[0].covouts.values()) if src.get("progs") else set()
     fpars = set(P.framework.pars.index)
     cands = [(par.name, pop) for par in ps.all_pars() if par.name in fpars for pop, ts in par.ts.items() if ts.has_data]
     cands.sort()
@@ -270,6 +273,11 @@ def materialise(src):
         ts.sigma = _sigma_of(s, ts)
         if ts.sigma is not None:
             ppos, zero = (ppos or ts.sigma > 0), (zero or ts.sigma == 0)
+            lo, hi = P.framework.pars.at[name, "minimum value"], P.framework.pars.at[name, "maximum value"]
+            vals = [float(v) for v in ts.vals] + ([float(ts.assumption)] if ts.assumption is not None else [])
+            # one-to-one visible in the results: untargeted data parameter, positive values far (>= 20 sigma) above a lower limit of 0
+            if ts.sigma > 0 and name not in targeted and (hi is None or hi != hi) and (lo is None or lo != lo or lo <= 0) and min(vals) > 0:
+                eff_par = True
     pg = ins = None
     if src.get("progs"):
         pg = P.progsets[0]
@@ -295,7 +303,25 @@ def materialise(src):
             pg.covouts[key] = at.Covout(par=old.par, pop=old.pop, progs=dict(old.progs), cov_interaction=old.cov_interaction, imp_interaction=imps, uncertainty=sigma, baseline=old.baseline)
             if sigma is not None:
                 gpos, zero = (gpos or sigma > 0), (zero or sigma == 0)
-    return {"P": P, "ps": ps, "pg": pg, "ins": ins, "ppos": ppos, "gpos": gpos, "zero": zero, "explicit": explicit, "explicit_sigma": explicit_sigma}
+    return {"P": P, "ps": ps, "pg": pg, "ins": ins, "ppos": ppos, "gpos": gpos, "zero": zero, "explicit": explicit, "explicit_sigma": explicit_sigma, "eff_par": eff_par}
+
+
+def progset_inputs_digest(pg):
+    """digest of everything ProgramSet.sample() may perturb (values only, no flags)"""
+    import hashlib
+
+    if pg is None:
+        return "-"
+    out = []
+    for name in sorted(pg.programs.keys()):
+        prog = pg.programs[name]
+        for attr in ("spend_data", "unit_cost", "capacity_constraint", "saturation", "coverage"):
+            ts = getattr(prog, attr)
+            out.append((name, attr, [repr(float(t)) for t in ts.t], [repr(float(v)) for v in ts.vals], None if ts.assumption is None else repr(float(ts.assumption))))
+    for key in sorted(pg.covouts.keys()):
+        c = pg.covouts[key]
+        out.append((key, sorted((k, repr(float(v))) for k, v in c.progs.items()), sorted((tuple(sorted(k)), repr(float(v))) for k, v in c._interactions.items()), repr(float(c.baseline))))
+    return hashlib.sha1(repr(out).encode()).hexdigest()
 
 
 def lib_sources(draw, unc):
